@@ -131,7 +131,11 @@ CHECKS = {
               "properties and other attributes untouched (frame lemma), the IDE-helper style; witness of the repaired plain-default "
               "defect under a quirk flag; model tied to the code over styled and wild class bodies x annotation kinds x default kinds x "
               "argument subsets x spellings of the public names (trailing / interior underscores; only leading underscores are dropped: "
-              "C16_public_name_keeps_suffix) x setter functions under user decorators (must be entered through them) in forked children"),
+              "C16_public_name_keeps_suffix) x setter functions under user decorators (must be entered through them) in forked children; "
+              "the implied default is read off the first member / first value of the class's own annotation (C16_union_default_is_first_member, "
+              "C16_literal_default_is_first_value, C16_optional_default_none, C16_member_order_matters_example), checked over histories of "
+              "classes declared in one process whose annotations are orders / spellings of shared member pools (annotations Python "
+              "compares equal)"),
         technique='Lean 4 proof over a hand model + differential correspondence + quirk probe', ref='4 C16'),
     'C18': dict(
         text=("Lean theorems over a state machine of Env (environ copy, var_names, cleaned_to_env) and the generated __init__: in every "
